@@ -24,6 +24,7 @@ from harness import alpha, compare, core, gamma, shims, tlc, util
 
 INV = ["ListedOnce", "RowPerField", "Emit"]
 _ORIG_TABLE = None
+NAN_CONVENTION = {}
 
 
 def capture(fn):
@@ -74,9 +75,15 @@ def run_scenario(chk, sc, cfgseed, ndims):
     lays = [rand_layout(rng, len(c)) for c in classes]
     ap = gamma.make_ap("A", fields, classes, lays, ndims=ndims, time=cfg_.time)
 
+    nan_at = (cfgseed // 7) % (2 * nlev) if cfgseed % 2 == 0 else None     # (level, min|max) holding a NaN entry
+
     def mm_override(lv, mins, maxs):
         if lv == 0 and cfgseed % 3 == 0:
             mins[1][0], maxs[1][0] = float("-inf"), float("inf")
+        if nan_at is not None and lv == nan_at // 2:
+            b = 1 + (cfgseed // 3) % len(mins)
+            j = (cfgseed // 5) % len(fields)
+            (mins if nan_at % 2 == 0 else maxs)[b][j] = float("nan")
         return mins, maxs
     d = os.path.join(chk.tmp(), "plt00100")
     os.makedirs(os.path.dirname(d))
@@ -160,11 +167,26 @@ def run_scenario(chk, sc, cfgseed, ndims):
         for i, f in enumerate(fields):
             if f not in got:
                 return "field %r (one of %d) has no row in the min/max table" % (f, len(fields))
-            lo = min(min(row[i] for row in A["lev"][l]["mins"]) for l in levels)
-            hi = max(max(row[i] for row in A["lev"][l]["maxs"]) for l in levels)
-            if got[f] != (fmt3(lo), fmt3(hi)):
-                return "min/max of %r printed as %r, the level headers give %r (%s)" % (
-                    f, got[f], (fmt3(lo), fmt3(hi)), "all levels" if mode == "minmax" else "finest level")
+            los = [row[i] for l in levels for row in A["lev"][l]["mins"]]
+            his = [row[i] for l in levels for row in A["lev"][l]["maxs"]]
+            for shown, vals, fun, what in ((got[f][0], los, min, "min"), (got[f][1], his, max, "max")):
+                clean = [v for v in vals if v == v]
+                if len(clean) == len(vals):
+                    ok = shown == fmt3(fun(vals))
+                else:
+                    # a NaN entry in the header tables: the statement does not say whether it propagates; either
+                    # convention is accepted, but it must be the SAME convention wherever the NaN sits (see run())
+                    if shown == fmt3(float("nan")):
+                        NAN_CONVENTION.setdefault("propagate", (f, mode, nan_at))
+                        ok = True
+                    elif clean and shown == fmt3(fun(clean)):
+                        NAN_CONVENTION.setdefault("ignore", (f, mode, nan_at))
+                        ok = True
+                    else:
+                        ok = False
+                if not ok:
+                    return "%s of %r printed as %r, the level headers hold %r (%s)" % (
+                        what, f, shown, sorted(set(vals), key=repr)[:6], "all levels" if mode == "minmax" else "finest level")
         extra = set(got) - set(fields)
         if extra:
             return "min/max table has rows for %r which are not fields" % sorted(extra)
@@ -245,3 +267,8 @@ def run(chk, replay):
         chk.traces += 1
         if v:
             chk.violation(sigs, v, {"sc": sc, "cfgseed": cfgseed, "ndims": ndims, "sigs": sigs})
+    if len(NAN_CONVENTION) > 1:
+        chk.violation("nan-extrema-convention", "the extremum shown for a field whose header tables contain a NaN entry depends on where "
+                      "the NaN sits: propagated for %r, ignored for %r (field, mode, (level, min|max) index)" % (
+                          NAN_CONVENTION["propagate"], NAN_CONVENTION["ignore"]), {"conventions": core.jdump(NAN_CONVENTION)})
+    chk.extra["nan_extrema_convention_observed"] = sorted(NAN_CONVENTION)
